@@ -317,7 +317,7 @@ print("FP=" + corr_C17.solve_fingerprint(json.loads({cfg!r}), {exname!r}))
 '''
 
 
-def solve_fingerprint(cfg, exname):
+def solve_fingerprint(cfg, exname, optimizer_obj=None):
     import warnings
 
     warnings.filterwarnings("ignore")
@@ -336,7 +336,8 @@ def solve_fingerprint(cfg, exname):
         conf = EVQEMinimumEigensolverConfiguration(
             configured_estimator=ConfiguredEstimatorV2(estimator=fakes.ExactEstimator(), precision=None) if cfg["estimator"] else None,
             configured_sampler=ConfiguredSamplerV2(sampler=fakes.ExactSampler(), shots=cfg.get("shots", 256)), pass_manager=None,
-            optimizer=SPSA(maxiter=cfg["maxiter"], learning_rate=0.1, perturbation=0.1) if cfg.get("optimizer") == "SPSA" else COBYLA(maxiter=cfg["maxiter"]),
+            optimizer=optimizer_obj if optimizer_obj is not None else (
+                SPSA(maxiter=cfg["maxiter"], learning_rate=0.1, perturbation=0.1) if cfg.get("optimizer") == "SPSA" else COBYLA(maxiter=cfg["maxiter"])),
             optimizer_n_circuit_evaluations=None, max_generations=cfg["max_gen"], max_circuit_evaluations=None, termination_criterion=None, random_seed=cfg["seed"],
             population_size=cfg["population"], speciation_genetic_distance_threshold=cfg["threshold"], selection_alpha_penalty=0.1, selection_beta_penalty=0.05,
             parameter_search_probability=cfg["p_param"], topological_search_probability=cfg["p_topo"], layer_removal_probability=cfg["p_rem"],
@@ -390,6 +391,36 @@ def tie_prone_solve_case(ctx, rng):
         if fp != ref:
             ctx.violate(f"two identically seeded single-worker solves from fresh solvers differ (coarse objective values with exact ties; schedule: stock pool vs {exname})",
                         inp, {"fields": diff_fields(ref, fp)}, key="solve:ties")
+            return
+
+
+class _CountingChecker:
+    """an SPSA termination checker with memory: ends a minimisation once it has been called `patience` times since it was created (or copied)"""
+
+    def __init__(self, patience):
+        self.patience, self.calls = patience, 0
+
+    def __call__(self, nfev, parameters, value, stepsize, accepted):
+        self.calls += 1
+        return self.calls >= self.patience
+
+
+def shared_optimizer_case(ctx, rng):
+    """the same optimiser OBJECT handed to several freshly constructed solvers (configuration objects are reused): an optimiser that keeps state
+    between minimisations (SPSA with blocking: the allowed increase calibrated in its first run) must not carry it from one solve into the next"""
+    from qiskit_algorithms.optimizers import SPSA
+
+    cfg = {"paulis": ["ZI", "IZ", "XX"], "coeffs": [1.0, -0.5, rng.choice([0.5, 1.0])], "estimator": True, "maxiter": 3, "max_gen": 2, "seed": rng.randrange(1, 2**31),
+           "population": 3, "threshold": 2, "p_param": 1.0, "p_topo": 0.5, "p_rem": 0.1, "tournament": False, "mutex": False, "optimizer": "SPSA(blocking) shared object"}
+    inp = {"kind": "solve", "shared_optimizer_object": True, **cfg}
+    ctx.case(inp, nontrivial=True, tags=["solve", "optimizer object shared by fresh solvers"])
+    opt = SPSA(maxiter=cfg["maxiter"] + 3, blocking=True, learning_rate=0.1, perturbation=0.1, termination_checker=_CountingChecker(4))
+    ref = solve_fingerprint(cfg, "stock", optimizer_obj=opt)
+    for exname in ("stock", "eager"):
+        fp = solve_fingerprint(cfg, exname, optimizer_obj=opt)
+        if fp != ref:
+            ctx.violate("two identically seeded single-worker solves from fresh solvers that were given the same optimiser object differ", inp,
+                        {"fields": diff_fields(ref, fp), "schedule": exname}, key="solve:shared-optimizer")
             return
 
 
@@ -725,6 +756,10 @@ def run(ctx):
         if ctx.out_of_time():
             break
         tie_prone_solve_case(ctx, rng)
+    for i in range(ctx.n(1, 6)):
+        if ctx.out_of_time():
+            break
+        shared_optimizer_case(ctx, rng)
     for i in range(ctx.n(3, 40)):
         if ctx.out_of_time():
             break
